@@ -36,6 +36,8 @@ def gen(rng, small=None):
     if c['target'] != 'none':
         s_any = fxm[0] or fym[0]
         t = small_fmt(rng)
+        if rng.random() < 0.3:      # any core-domain target, including many more fraction bits than the operands have
+            nwt = rng.randint(13, 52); t = (rng.random() < 0.6, nwt, min(36, rng.choice([0, nwt // 2, nwt - 1, nwt, nwt + 8, rng.randint(0, nwt + 8)])))   # (n_frac <= 36 keeps |exact result * 2^n_frac| < 2^62, C01's domain)
         if s_any and not t[0]: t = (True, max(t[1], 2), min(t[2], max(t[1], 2) - 1))
         c['t'] = list(t); c['rt'] = rng.choice(RMODES); c['ot'] = rng.choice(OMODES); c['route'] = 'func' if rng.random() < 0.7 else 'operator'
     if small: c['cx'], c['cy'] = small[2], small[3]
